@@ -109,9 +109,10 @@ def _run(ctx, thorough, binpath, tokio_bin, scratch, replay):
     # ---- 1. model checking ---------------------------------------------------------------------------------
     mcs = [("MC_StaticFs_quick.cfg", "24 spellings, depth<=3, 3 routes")]
     if thorough:
+        # (the deepest layer - the property's 18 spellings to depth 5 - is model-checked in the same TLC runs that
+        # print its vectors, see below)
         mcs = [("MC_StaticFs_wide.cfg", "46 spellings, depth<=3, 3 routes"),
-               ("MC_StaticFs_mid.cfg", "24 spellings, depth<=4, 3 routes"),
-               ("MC_StaticFs_deep.cfg", "18 spellings (the property's catalogue), depth<=5, 1 route")]
+               ("MC_StaticFs_mid.cfg", "20 spellings, depth<=4, 3 routes")]
     for i, (cfg, what) in enumerate(mcs):
         # action coverage is collected on the first configuration only (it slows TLC down; the others take the same action)
         r = run_tlc("MC_StaticFs.tla", cfg, D, workers=8, coverage=(i == 0), timeout=2400, work_id="c06")
@@ -138,14 +139,18 @@ def _run(ctx, thorough, binpath, tokio_bin, scratch, replay):
         # the deepest layer (18^5 paths) is split into one TLC run per first segment; paths of <= 4 segments over the
         # property's catalogue are contained in "mid"
         gens = [("Gen_StaticFs_wide.cfg", {}, "wide"), ("Gen_StaticFs_mid.cfg", {}, "mid")]
-        gens += [("Gen_StaticFs_deep.cfg", {"GENMIN": 5, "GENFIRST": k}, "deep=5") for k in range(1, 19)]
+        gens += [("Deep_StaticFs.cfg", {"GENMIN": 5, "GENFIRST": k}, "deep=5") for k in range(1, 19)]
     first_vectors = None
     for cfg, env, label in gens:
         g = run_tlc("MC_StaticFs.tla", cfg, D, workers=8, timeout=2400, work_id="c06", heap="6g", env=env)
+        if g.violation and cfg.startswith("Deep_"):
+            ctx.add_tlc("handler model, Dev={}: 18 spellings, depth 5, first segment %s" % env["GENFIRST"], g)
+            ctx.require_tlc_ok(cfg, g)                    # PrefixRule / GuardSound / DeepInv failed on the model
+            continue
         if g.violation:
             raise vlib.ToolError("generation failed (%s): %s" % (cfg, g.out[-2000:]))
-        vectors = [x for x in g.prints if isinstance(x, dict) and "r" in x]
-        ctx.add_tlc("vector generation %s %s" % (cfg, env or ""), g)
+        vectors = [x for x in g.prints if isinstance(x, dict) and ("r" in x or "p" in x)]
+        ctx.add_tlc(("model checking + vector generation %s %s" if cfg.startswith("Deep_") else "vector generation %s %s") % (cfg, env or ""), g)
         if not vectors:
             raise vlib.ToolError("generation %s printed no vectors" % cfg)
         hist = kinds(vectors)
@@ -228,7 +233,7 @@ def _run(ctx, thorough, binpath, tokio_bin, scratch, replay):
     if t2.violation != "invariant" or t2.violated_name != "AllAgree":
         raise vlib.ToolError("binding self-test failed: a trace claiming the canary was served was accepted")
 
-    ctx.cov["rule"] = ("every request path of <= d segments over the catalogue of spellings (quick: 30 spellings, d=3; thorough: 46/d=3, 24/d=4, "
+    ctx.cov["rule"] = ("every request path of <= d segments over the catalogue of spellings (quick: 30 spellings, d=3; thorough: 46/d=3, 20/d=4, "
                        "the property's 18/d=5), each sent to serve_dir and directory_handler under 3 route prefixes and to serve_as_file_path in 3 worlds; "
                        "non-trivial = distinct paths that in some world are served, redirected, have an admitted alternative, or would reach a file "
                        "without the traversal check")
